@@ -163,11 +163,11 @@ def gen_plain(rng, names, unk_rate):
         return [["Code"]]
     if r < 0.36:
         m = rng.choice(VALS)
-        pre = [["Undef", m]] if rng.random() < 0.8 else []
+        pre = [["Undef", m]] if rng.random() < 0.95 else []
         return pre + [["Def", m, rng.choice([0, 1, 2])]]
     if r < 0.44:
         m = rng.choice(FLAGS)
-        pre = [["Undef", m]] if rng.random() < 0.7 else []
+        pre = [["Undef", m]] if rng.random() < 0.95 else []
         return pre + [["Def", m, rng.choice(["E", 1])]]
     if r < 0.50:
         return [["Undef", rng.choice(FLAGS + VALS)]]
@@ -184,7 +184,7 @@ def gen_plain(rng, names, unk_rate):
         if rr < 0.88:
             return [["Inc", ["A", n]]]
         m = rng.choice(PMACS)
-        pre = [["Undef", m], ["Def", m, ["P", rng.random() < 0.4, rng.choice(names)]]] if rng.random() < 0.85 else []
+        pre = [["Undef", m], ["Def", m, ["P", rng.random() < 0.4, rng.choice(names)]]] if rng.random() < 0.95 else []
         return pre + [["Inc", ["M", m]]]
     return [["Code"]]
 
@@ -265,7 +265,7 @@ def gen_case(rng, malformed=False, phrase=False, unk=None):
     files = {}
     order = list(present)
     for idx, n in enumerate(order):
-        later = order[idx + 1:] if rng.random() < 0.85 else order
+        later = order[idx + 1:] if rng.random() < 0.93 else order
         later = later + ghosts
         for d in rng.sample(DIRS, rng.randint(1, 2)):
             p = d + n
@@ -477,6 +477,7 @@ class C18(Check):
         self.oracle_cases = 0
         self.oracle_skipped = 0
         self.oracle_bad = []
+        self.hist = {}
 
     # ---- generation ----
     def generate(self):
@@ -667,6 +668,19 @@ class C18(Check):
             self.kinds[e[0]] = self.kinds.get(e[0], 0) + 1
         kinds = {e[0] for e in evs}
         inc = [tuple(e[1:]) for e in evs if e[0] == "missing-include"]
+        h = self.hist
+        def bump(name, key):   # noqa
+            h.setdefault(name, {})
+            h[name][str(key)] = h[name].get(str(key), 0) + 1
+        bump("platforms", len(case[1]))
+        bump("database_entries", sum(len(es) for _, es in case[1]))
+        bump("files", len(case[0]))
+        bump("events_per_case", min(len(evs), 20) // 5 * 5)
+        bump("kinds_per_case", len(kinds))
+        bump("silent", int(not evs))
+        bump("include_event_in_header", int(any(not e[0].endswith((".c", ".cpp")) for e in inc)))
+        bump("same_include_event_repeated", int(len(inc) != len(set(inc))))
+        bump("both_forms_missing", int(len({e[3] for e in inc}) == 2))
         repeated = len(inc) != len(set(inc)) or any(not e[0].endswith((".c", ".cpp")) for e in inc)
         return len(kinds) >= 2 and repeated
 
@@ -780,9 +794,13 @@ class C18(Check):
             self.materialise(c, root)
             (root / "empty").mkdir(exist_ok=True)
             cwd = root.joinpath(*f[:-1])
-            pr = subprocess.run(["gcc", "-M", "-MG", "-undef", "-nostdinc"] + render_args(args, str(root)) + [str(root.joinpath(*f))],
-                                cwd=cwd, capture_output=True, text=True)
             self.oracle_cases += 1
+            try:
+                pr = subprocess.run(["gcc", "-M", "-MG", "-undef", "-nostdinc"] + render_args(args, str(root)) + [str(root.joinpath(*f))],
+                                    cwd=cwd, capture_output=True, text=True, timeout=20)
+            except subprocess.TimeoutExpired:      # unguarded mutual inclusion: gcc explores up to depth 200
+                self.oracle_skipped += 1
+                continue
             if pr.returncode != 0 or pr.stderr.strip() or sa is None or sa[0] != "Ok" or not self.in_domain(c, sa):
                 self.oracle_skipped += 1
                 continue
@@ -805,7 +823,7 @@ class C18(Check):
     def extra_coverage(self):
         return {"spec_oracle_cases": self.oracle_cases, "spec_oracle_disagreements": len(self.oracle_bad),
                 "spec_oracle_diagnosed_or_out_of_domain": self.oracle_skipped,
-                "event_kinds_observed": self.kinds, "cli_runs": self.cli_runs,
+                "event_kinds_observed": self.kinds, "input_distribution": self.hist, "cli_runs": self.cli_runs,
                 "mean_events_per_case": round(self.events_total / max(1, self.ncases), 2)}
 
 
